@@ -290,7 +290,9 @@ class World:
         self.handler_errors: list[str] = []
         self.handled: list[tuple[str, str]] = []  # (message type, row id) in handling order
         self.bus_log: list[Any] = []
+        self.signal_seen: list[str | None] = []  # durable stage status when each SignalStage was handled
         self._peek: sqlite3.Connection | None = None
+        self._in_deliver = False
         self.workflow_id: str | None = None
         self.refs: dict[str, str] = {}  # ref_id -> stage id
         _CURRENT_WORLD = self
@@ -372,6 +374,8 @@ class World:
         def _handle_message(message: Any) -> None:
             HOOKS.ctx = type(message).__name__
             HOOKS.handler_base = HOOKS.commits
+            if HOOKS.ctx == "SignalStage" and not self._in_deliver:
+                self.signal_seen.append(self.peek_stage_status(message.stage_id))
             try:
                 orig_handle(message)
             finally:
@@ -520,14 +524,25 @@ class World:
         if target > now:
             stubs.CLOCK.advance(target - now)
         p = self.peek()
+        orig_deliver_at = r["deliver_at"]
         p.execute("UPDATE queue_messages SET deliver_at='1970-01-01T00:00:00+00:00' WHERE id=?", (row_id,))
-        msg = self.queue.poll_one()
+        try:
+            msg = self.queue.poll_one()
+        finally:
+            # (no-op if the row was acked/rescheduled meanwhile; an un-acked row keeps its place)
+            pass
         if msg is None or str(msg.message_id) != str(row_id):
             raise RuntimeError("scheduler: poll_one returned %r instead of row %s" % (msg, row_id))
         mtype = type(msg).__name__
         self.handled.append((mtype, str(row_id)))
+        if mtype == "SignalStage":
+            self.signal_seen.append(self.peek_stage_status(msg.stage_id))
         try:
-            self.processor._handle_message(msg)
+            self._in_deliver = True
+            try:
+                self.processor._handle_message(msg)
+            finally:
+                self._in_deliver = False
             if ack:
                 self.queue.ack(msg)
         except Crash:
@@ -536,6 +551,8 @@ class World:
             self.handler_errors.append(mtype + ": " + type(e).__name__ + ": " + str(e)[:200])
             msg.set_error_context(e)
             self.queue.reschedule(msg, self.processor.config.retry_delay)
+        if not ack:
+            p.execute("UPDATE queue_messages SET deliver_at=? WHERE id=? AND deliver_at='1970-01-01T00:00:00+00:00'", (orig_deliver_at, row_id))
         return mtype
 
     # -- observation ------------------------------------------------------------------------------------
